@@ -31,13 +31,23 @@ func refParse(md []byte) (bool, []ophosthook.PortChannelID) {
 	if _, ok := probe["perm_channels"]; !ok {
 		return false, nil
 	}
+	// the documented structure, declared here (not the repository's own types: their decoding is under test)
+	var pm struct {
+		PermChannels []struct {
+			PortID    string `json:"port_id"`
+			ChannelID string `json:"channel_id"`
+		} `json:"perm_channels"`
+	}
 	dec := json.NewDecoder(bytes.NewReader(md))
 	dec.DisallowUnknownFields()
-	var pm ophosthook.PermsMetadata
 	if err := dec.Decode(&pm); err != nil {
 		return false, nil
 	}
-	return true, pm.PermChannels
+	var out []ophosthook.PortChannelID
+	for _, pc := range pm.PermChannels {
+		out = append(out, ophosthook.PortChannelID{PortID: pc.PortID, ChannelID: pc.ChannelID})
+	}
+	return true, out
 }
 
 type c19World struct {
@@ -131,16 +141,28 @@ func (w *c19World) checkGrantOp(kind string, bridge uint64, md []byte, challenge
 		return
 	}
 	allAllowed := true
+	// clearlyGrantable: the narrow case in which nothing can stand in the way — no channel listed twice, and every
+	// listed channel is fresh and free or (metadata update only) already administered by this challenger, used or not
+	clearlyGrantable := kind != "update_challenger"
+	seen := map[string]bool{}
 	for _, pc := range list {
 		st := states[permKey(pc.PortID, pc.ChannelID)]
 		allowed := st.exists && ((st.seq == 1 && st.admin == "") || st.admin == challenger)
 		if !allowed {
 			allAllowed = false
 		}
+		if seen[permKey(pc.PortID, pc.ChannelID)] || !st.exists || !((st.seq == 1 && st.admin == "") || (kind == "update_metadata" && st.admin == challenger)) {
+			clearlyGrantable = false
+		}
+		seen[permKey(pc.PortID, pc.ChannelID)] = true
 	}
 	if !allAllowed {
 		run.Check("C19.grant_conditions_enforced", res.Class != sim.OK, "c19.capture."+kind, w.tr(), "%s succeeded although a listed channel is missing, in use, or administered by someone else", kind)
 		w.feat["refused"]++
+	} else if clearlyGrantable {
+		// every listed channel is fresh and free, or already administered by this very challenger (used or not): nothing
+		// stands in the way of the operation
+		run.Check("C19.grantable_channels_accepted", res.Class == sim.OK, "c19.grantable_refused."+kind, w.tr(), "%s refused although every listed channel exists and is either fresh and free or already administered by the bridge's challenger: %s", kind, res.ErrString())
 	}
 	if res.Class == sim.OK {
 		want := map[string]string{}
